@@ -134,8 +134,9 @@ fn atoms(d: &Delims, rich: bool) -> Vec<String> {
         "t".to_string(),
         format!("{}a{}", d.ds, d.de),
         format!("{}/a{}", d.ds, d.de),
-        format!("{}b{}", d.ds, d.de),
-        format!("{}/b{}", d.ds, d.de),
+        // the second name has the first as a proper prefix
+        format!("{}ab{}", d.ds, d.de),
+        format!("{}/ab{}", d.ds, d.de),
         format!("{}/z{}", d.ds, d.de),
     ];
     if rich {
@@ -147,7 +148,7 @@ fn atoms(d: &Delims, rich: bool) -> Vec<String> {
 }
 
 pub fn run(r: &Report) {
-    r.set_rule("every sequence of <= N atoms over {text, open a, close a, open b, close b, close z} (thorough adds: open a with attributes, malformed tag) rendered with delimiters < > and <!-- < > -->; real tokenize+parser::parse flattened to (open,close,parent) triples vs. explicit-stack model, plus in-order token coverage; non-trivial = distinct documents containing a crossing, a same-name nesting or a stray tag");
+    r.set_rule("every sequence of <= N atoms over {text, open a, close a, open ab, close ab, close z} (one name a proper prefix of the other) (thorough adds: open a with attributes, malformed tag) rendered with delimiters < > and <!-- < > -->; real tokenize+parser::parse flattened to (open,close,parent) triples vs. explicit-stack model, plus in-order token coverage; non-trivial = distinct documents containing a crossing, a same-name nesting or a stray tag");
     let (n_main, n_rich) = match r.tier {
         Tier::Quick => (7, 0),
         Tier::Thorough => (10, 8),
